@@ -9,6 +9,7 @@ real pipeline has pulled no more than the reference.  Liveness census (weak
 references to unique tokens) for negative-index Slice.
 """
 import collections
+import collections.abc
 import contextlib
 import io
 import itertools
@@ -134,6 +135,8 @@ def cases(tier, seed):
             rec["form"] = "source-reiterable"
         elif x < 0.4:
             rec["form"] = "split-source"
+        elif x < 0.5:
+            rec["form"] = "source-abc-sequence"
         yield rec
     big = 400 if tier == "quick" else 3000
     for s in range(1, 6):
@@ -144,6 +147,14 @@ def cases(tier, seed):
             for cb in [True, False]:
                 yield {"k": "splitblocks", "bufsize": b, "branches": nb, "copy_buf": cb, "n": 11}
     yield {"k": "builtins"}
+    # a Split of Sources used as a source: a later Source is called (its file opened, its
+    # generator function started) only when the consumer needs a value from it
+    for kinds in (["call", "call"], ["call", "iter", "call"], ["iter", "call"],
+                  ["call", "call", "call"]):
+        for lens in ([2, 2, 2], [0, 3, 1], [3, 0, 2], [1, 1, 1]):
+            for via in ("split", "source", "source-slice"):
+                yield {"k": "splitcall", "kinds": kinds, "lens": lens[:len(kinds)], "via": via}
+    yield {"k": "splitcall", "kinds": ["inf", "call"], "lens": [None, 2], "via": "source-slice"}
     # elements that write files: nothing on disk and nothing pulled when run() is called
     for which in ("cache", "cache-in-source", "write", "tocsv-write"):
         for n in (0, 3):
@@ -336,6 +347,34 @@ class ReIterable(object):
         return iter(self._probe)
 
 
+class LazySequence(collections.abc.Sequence):
+    """A collections.abc.Sequence that reads its items on demand (records of a file, rows of a
+    table): every item access is a pull of the underlying probe."""
+
+    def __init__(self, probe):
+        self._probe = probe
+
+    def __len__(self):
+        return self._probe.n if self._probe.n is not None else 10 ** 12
+
+    def __getitem__(self, i):
+        if isinstance(i, slice):
+            raise TypeError("items are read one by one")
+        if i < 0:
+            i += len(self)
+        p = self._probe
+        if i == p.i:
+            try:
+                return next(p)
+            except StopIteration:
+                raise IndexError(i)
+        if p.n is not None and i >= p.n:
+            raise IndexError(i)
+        # an item read again (or out of order): also a read
+        p.trace.log(p.name, (i, None))
+        return p.make(i)
+
+
 def build_pair(recipes):
     """Build the real pipeline and a twin set of elements for the reference."""
     import lena.core
@@ -369,7 +408,13 @@ def trace_run(start, probe_kw, take=None, close=True):
     results = []
     outcome = "exhausted"
     with contextlib.redirect_stdout(io.StringIO()):
-        it = start(probe)
+        try:
+            it = start(probe)
+        except PullBudgetExceeded:
+            # the whole (unbounded) input was read while the pipeline was being built
+            tr.log("run-called")
+            tr.log("closed")
+            return tr, [], "budget"
         tr.log("run-called")
         try:
             k = 0
@@ -437,6 +482,9 @@ def _trace_case(r, obs):
                 # the flow given to a Source as a lazy re-iterable object (not an iterator):
                 # building the Source and calling it reads nothing
                 return lena.core.Source(ReIterable(probe), *[build(e) for e in _els])()
+            if form == "source-abc-sequence":
+                # the flow given to a Source as a lazy collections.abc.Sequence
+                return lena.core.Source(LazySequence(probe), *[build(e) for e in _els])()
             if form == "split-source":
                 # the same Source as a branch of a Split (in a Sequence, run on an empty flow):
                 # building them reads nothing, the Source's results are handed on one by one
@@ -669,6 +717,73 @@ def _other_case(r, obs):
                       "%s yielded %d values for %d" % (which, len(out), n))
         finally:
             shutil.rmtree(d, ignore_errors=True)
+    elif k == "splitcall":
+        obs.nontrivial = True
+        kinds, lens, via = r["kinds"], r["lens"], r["via"]
+        total = sum(x for x in lens if x is not None)
+
+        def values_of(j, n):
+            if n is None:
+                return itertools.count(1000 * j)
+            return iter([1000 * j + i for i in range(n)])
+
+        class Opener(object):
+            """First element of a Source: an ordinary callable returning an iterator (like
+            functools.partial(open, name)).  Being called is logged."""
+
+            def __init__(self, tr, j, n):
+                self.tr, self.j, self.n = tr, j, n
+
+            def __call__(self):
+                self.tr.log("opened", self.j)
+                return values_of(self.j, self.n)
+
+        class IterOpener(object):
+            """First element of a Source: an iterable whose __iter__ is not a generator
+            function.  Being iterated is logged."""
+
+            def __init__(self, tr, j, n):
+                self.tr, self.j, self.n = tr, j, n
+
+            def __iter__(self):
+                self.tr.log("opened", self.j)
+                return values_of(self.j, self.n)
+        limit = total if None not in lens else 5
+        for take in range(0, limit + 1):
+            tr = Trace()
+            srcs = [lena.core.Source((IterOpener if kd == "iter" else Opener)(tr, j, n),
+                                     gen.func("id"))
+                    for j, (kd, n) in enumerate(zip(kinds, lens))]
+            sp = lena.core.Split(srcs)
+            if via == "split":
+                stream = sp()
+            elif via == "source":
+                stream = lena.core.Source(sp, gen.func("id"))()
+            else:
+                stream = lena.core.Source(sp, lena.flow.Slice(limit))()
+            opened_early = tr.count("opened")
+            got = list(itertools.islice(stream, take))
+            opened = [e[2] for e in tr.events if e[1] == "opened"]
+            # source j is needed for the results taken iff results before it are fewer than taken
+            needed, off = [], 0
+            for j, n in enumerate(lens):
+                if off < take:
+                    needed.append(j)
+                if n is None:
+                    break
+                off += n
+            obs.count("stop_points_checked")
+            obs.count("got_events", len(got))
+            obs.check(opened_early == 0, "work-before-demand:split-of-sources",
+                      "Split of Sources %r (%s): %d of them were called when the flow was "
+                      "created, before the first next()" % (kinds, via, opened_early))
+            obs.check(sorted(opened) == needed,
+                      "source-called-before-needed:split-of-sources",
+                      "Split of Sources (kinds %r, lengths %r) used through %s: after the consumer "
+                      "took %d result(s) the Sources %r had been called / iterated, needed were %r"
+                      % (kinds, lens, via, take, opened, needed))
+            if hasattr(stream, "close"):
+                stream.close()
     elif k == "builtins":
         # the trace checker itself: an eager reference must be caught by the same oracle
         obs.nontrivial = True
@@ -698,7 +813,7 @@ def _culprit(els_r):
                 for br in e[1]:
                     walk(br)
     walk(els_r)
-    order = ["cache", "split", "negslice", "count", "runif", "slice", "filter"]
+    order = ["split", "negslice", "count", "runif", "slice", "filter", "cache"]
     for o in order:
         if o in kinds:
             return o
@@ -708,3 +823,7 @@ def _culprit(els_r):
 RULE += (' Pipelines also contain FillRequest(Sequence(...), bufsize, yield_on_remainder=True) as a streaming element (no buffer during run: results one by one, block after block).')
 RULE += (' Pipelines also contain a Cache with no file yet (a pass-through that dumps), and are also '
          'run as the tail of a Source over a lazy re-iterable that is the only branch of a Split.')
+RULE += (' Added: a Source over a lazy collections.abc.Sequence (every item access is a pull; nothing '
+         'is read when the Source is built); a Split of Sources used as a source, whose Sources have '
+         'ordinary callables / non-generator __iter__ as first elements: a later Source is called '
+         'only when a value from it is needed.')
